@@ -707,3 +707,36 @@ impl Family for FManyUpvalues {
         module(vec![("main", func(&[], vec![sv("c", call("mk", vec![])), sg("r", C::DynCall(b(rv("c")), vec![]))])), ("mk", func(&[], body))])
     }
 }
+
+/// std.sorted / min / max over larger tables whose values are not totally ordered by the language's
+/// comparison (nil ties with everything, a string ties with the number equal to its length, yet
+/// the numbers differ): the library must return, whatever order it picks.
+pub struct FSortMixed;
+
+impl FSortMixed {
+    const SIZES: [usize; 6] = [8, 21, 33, 64, 100, 200];
+}
+
+impl Family for FSortMixed {
+    fn name(&self) -> &'static str {
+        "F-sort-mixed"
+    }
+    fn len(&self) -> u64 {
+        Self::SIZES.len() as u64 * 6 * 3
+    }
+    fn case(&self, idx: u64) -> Module {
+        let size = Self::SIZES[(idx % 6) as usize];
+        let rot = ((idx / 6) % 6) as usize;
+        let f = ["std.sorted", "std.min", "std.max"][(idx / 36) as usize];
+        let pool: Vec<C> = vec![C::Nil, s("ab"), int(0), int(2), C::Float(1.5), s(""), C::Float(f64::NAN), int(-1), s("abc")];
+        let mut cards = vec![sv("t", C::CreateTable)];
+        for i in 0..size {
+            // a deterministic scramble of the pool
+            let v = pool[(i * 7 + rot * 3 + i / 5) % pool.len()].clone();
+            cards.push(C::Append(b(v), b(rv("t"))));
+        }
+        cards.push(sg("r", C::Len(b(call(f, vec![rv("t")])))));
+        cards.push(sg("done", int(1)));
+        module(vec![("main", func(&[], cards))])
+    }
+}
